@@ -264,6 +264,16 @@ fn lifecycle<T: 'static>(mk: fn() -> T, counted: bool) {
     let solo = CArcSome::<T>::from(mk());
     drop(solo.transpose().into_opaque());
     assert!(drops() == 2 * counted as u32, "C10 a value owned only through an opaque handle is dropped exactly once (any payload class)");
+    // CArc built directly from a VALUE: it is an Arc like any other (shared, counted, convertible back)
+    let direct = CArc::<T>::from(mk());
+    assert!(drops() == 2 * counted as u32, "C10 CArc::from(value) keeps the value alive (any payload class)");
+    let d2 = direct.clone();
+    drop(direct);
+    assert!(drops() == 2 * counted as u32, "C10 a clone keeps the value alive (any payload class)");
+    let arc_back = unsafe { d2.transpose().unwrap().into_arc() };
+    assert!(Arc::strong_count(&arc_back) == 1, "C10 a handle built from a value converts back into the one Arc that owns it (any payload class)");
+    drop(arc_back);
+    assert!(drops() == 3 * counted as u32, "C10 the value is dropped exactly when its last handle goes away (any payload class)");
 }
 #[kani::proof] fn p_class_zst_drop() { lifecycle::<Pz>(|| Pz, true); kani::cover!(true, "end"); }
 #[kani::proof] fn p_class_plain() { lifecycle::<u64>(|| 7, false); kani::cover!(true, "end"); }
